@@ -238,6 +238,8 @@ def run(chk, repo, tier):
     run_id_typestate(chk, repo, 'C07.R1', fis, 103)
     rule_R2(chk, repo)
     rule_R3(chk, repo)
+    from .C07charges import rule_R6
+    rule_R6(chk, repo)
     chk.undecided += ['operator equality of the optimised and explicit construction', 'unitarity of the gauge matrices',
                       'index ranges of the wiring (C07.R4) unless the thorough tier is run']
     chk.trust('naming convention a_dag ~ creation (C), a_ann ~ annihilation (A) for the get() rule')
